@@ -4,10 +4,11 @@ guard OFF and compare the passing set with BASELINE.stable_pass.  exit 0 iff eve
 import json, os, subprocess, sys, tempfile
 import xml.etree.ElementTree as ET
 
-repo = os.environ.get('AY_REPO', '/repo')
+repo = os.environ.get("AY_REPO", "/repo")
 base = json.load(open('/root/.vp/BASELINE.json')) if os.path.exists('/root/.vp/BASELINE.json') else None
 env = dict(os.environ)
 env.pop('SAMSUNGLABS_AWESOMEYAML_VERIF', None)
+env['PYTHONPATH'] = repo
 with tempfile.TemporaryDirectory() as td:
     xml = os.path.join(td, 'junit.xml')
     cmd = ['/venv/bin/python', '-m', 'pytest', '-ra', '-q', '-p', 'no:cacheprovider', '--timeout=900',
